@@ -27,7 +27,7 @@ func c16Scenarios() []cParams {
 }
 
 func c17Scenarios() []cParams {
-	ev := []string{"note:tx", "note:upd", "note:tx:same", "note:upd:skip", "note:tx:old", "note:upd:far", "note:hdrs", "note:insync", "drop", "tick:2100", "tick:100"}
+	ev := []string{"note:tx", "note:upd", "note:tx:same", "note:upd:skip", "note:tx:old", "note:upd:far", "note:hdrs", "note:insync", "drop", "tick:2100", "tick:100", "addhandler"}
 	resume := cBase(client.ConnectionTypeFull)
 	resume.FirstReady = 57
 	return []cParams{
